@@ -475,7 +475,7 @@ impl<K, V, A: Allocator> CaoHashMap<K, V, A> {
         K: Eq + Hash,
     {
         let hash = hash(&key);
-        let i = self.find_ind(hash, &key);
+        let mut i = self.find_ind(hash, &key);
         let pl;
         if self.hashes()[i] != 0 {
             pl = EntryPayload::Occupied(unsafe { &mut *self.values.as_ptr().add(i) });
@@ -483,6 +483,8 @@ impl<K, V, A: Allocator> CaoHashMap<K, V, A> {
             // if it would need to grow on insert, then allocate the new buffer now
             if Self::needs_grow(self.count + 1, self.capacity) {
                 self.grow()?;
+                // the buckets have moved, find the vacant bucket in the new buffer
+                i = self.find_ind(hash, &key);
             }
             unsafe {
                 pl = EntryPayload::Vacant {
